@@ -103,6 +103,12 @@ def check(repo: Repo, rep: Report) -> None:
     ok = any(isinstance(s.node, ast.Assign) and u(s.node.value) == f"self._clone({grw.params[1]})" for s in sites(grw)) and \
         any(isinstance(s.node, ast.Return) and u(s.node.value) == "self._recursive_wrapper" for s in sites(grw))
     rep.ob("R1-recursive", grw, "wrapper built by _clone(scheduler)", ok, "the recursive wrapper is not a CatchScheduler clone over the inner scheduler")
+    clones = {u(s.node.targets[0]) for s in sites(grw) if isinstance(s.node, ast.Assign) and u(s.node.value) == f"self._clone({grw.params[1]})"}
+    for s in sites(grw):
+        if isinstance(s.node, ast.Assign) and isinstance(s.node.targets[0], ast.Attribute) and s.node.targets[0].attr == "_recursive_wrapper":
+            rep.ob("R1-recursive", grw, f"`{short(s.node)}` stores a CatchScheduler clone", u(s.node.value) in clones,
+                   f"`{short(s.node)}` stores something that is not the catching clone as a recursive wrapper: actions scheduled from deeper "
+                   f"recursion levels receive the raw scheduler and their exceptions bypass the handler")
     # periodic
     per = repo.fn(C, "CatchScheduler.schedule_periodic.periodic")
     sp = repo.fn(C, "CatchScheduler.schedule_periodic")
